@@ -2642,10 +2642,12 @@ def rule_lemire_precision_and_window(col, facts):
             continue
         e = strip_casts(op_expr(f, b["t"]["d"]))
         if e[0] == "bin" and e[1] in ("Lt", "Le", "Gt", "Ge"):
-            s = show(e)
             for lim in ("SMALLEST_POWER_OF_TEN", "LARGEST_POWER_OF_TEN"):
-                if lim in s and strip_casts(e[2])[0] in ("arg", "var"):
+                # `q OP limit`, or the mirrored `limit OP' q`
+                if lim in show(e[3]) and strip_casts(e[2])[0] in ("arg", "var"):
                     seen[lim] = e[1]
+                elif lim in show(e[2]) and strip_casts(e[3])[0] in ("arg", "var"):
+                    seen[lim] = {"Lt": "Gt", "Gt": "Lt", "Le": "Ge", "Ge": "Le"}[e[1]]
     col.check("CFG-window", "lemire::compute_float:zero-below-smallest", seen.get("SMALLEST_POWER_OF_TEN") == "Lt",
               "q is compared with SMALLEST_POWER_OF_TEN using %s (expected `<`): the smallest decade of the table would be flushed to zero" % seen.get("SMALLEST_POWER_OF_TEN"), f.loc())
     col.check("CFG-window", "lemire::compute_float:inf-above-largest", seen.get("LARGEST_POWER_OF_TEN") == "Gt",
@@ -2669,10 +2671,26 @@ def rule_bellerophon_underflow_order(col, facts):
         if not f.live(i) or b["t"]["k"] != "switch":
             continue
         e = strip_casts(op_expr(f, b["t"]["d"]))
-        if not (e[0] == "bin" and e[1] in ("Gt", "Ge", "Eq") and strip_casts(e[3]) == ("k", 65)):
+        if not (e[0] == "bin" and e[1] in ("Gt", "Ge", "Eq", "Lt", "Le", "Ne") and "Neg" in show(e) and any(strip_casts(x)[0] == "k" and isinstance(strip_casts(x)[1], int) and 60 <= abs(strip_casts(x)[1]) <= 70 for x in (e[2], e[3]))):
             continue
+        # the test as a predicate of the denormal shift s = -exp + 1: evaluate it with exp = 1 - s
+        def _ev(x, exp):
+            x = strip_casts(simplify_proj(x))
+            if x[0] == "k":
+                return x[1]
+            if x[0] == "un" and x[1] == "Neg":
+                return -_ev(x[2], exp)
+            if x[0] == "bin" and x[1] in ("Add", "Sub"):
+                a_, b_ = _ev(x[2], exp), _ev(x[3], exp)
+                return a_ + b_ if x[1] == "Add" else a_ - b_
+            return exp                      # the exponent field
+        def _holds(s_):
+            a_, b_ = _ev(e[2], 1 - s_), _ev(e[3], 1 - s_)
+            return {"Gt": a_ > b_, "Ge": a_ >= b_, "Eq": a_ == b_, "Lt": a_ < b_, "Le": a_ <= b_, "Ne": a_ != b_}[e[1]]
+        # which edge returns zero?  the one whose successor builds the literal: approximate by "the edge taken for a huge shift"
+        zero_when = _holds(1000)
         n += 1
-        admits65 = e[1] in ("Ge", "Eq")
+        admits65 = (_holds(65) == zero_when)
         # (the accuracy test itself is skipped when lossy, so it does not dominate what follows it: what must not
         #  happen is that the zero return for 65 comes *before* it, i.e. dominates it)
         if admits65 and any(f.dominates(i, a_) for a_ in acc):
